@@ -182,11 +182,44 @@ def random_budget(rnd):
 
 
 # ---------------------------------------------------------------- driver
+def _shape(item):
+    out = []
+    for st in item["steps"]:
+        a = st.get("a")
+        if a == "Save":
+            rq = st["rq"]
+            out.append((a, st.get("why"), rq.get("create"), rq.get("typ"), rq.get("id", 0) < 0))
+        elif a == "Race":
+            out.append((a, st.get("ok1"), st.get("ok2")))
+        elif a == "Goc":
+            out.append((a, st.get("kind"), st.get("charged")))
+        else:
+            out.append((a,))
+    return tuple(out)
+
+
 def sample(ctx, items, n, salt=0):
+    """Seeded sample that favours variety: behaviours are grouped by the shape of their operation
+    sequence (operation, outcome class) and the groups are served round-robin."""
     rnd = random.Random(ctx.seed * 104729 + salt)
-    items = list(items)
-    rnd.shuffle(items)
-    return items[:n]
+    groups = {}
+    for it in items:
+        groups.setdefault(_shape(it), []).append(it)
+    keys = sorted(groups, key=repr)
+    rnd.shuffle(keys)
+    for k in keys:
+        rnd.shuffle(groups[k])
+    out = []
+    while len(out) < n and keys:
+        nxt = []
+        for k in keys:
+            if len(out) >= n:
+                break
+            out.append(groups[k].pop())
+            if groups[k]:
+                nxt.append(k)
+        keys = nxt
+    return out
 
 
 def drive(ctx, mode, items, stage, timeout=2400):
@@ -214,13 +247,20 @@ def drive(ctx, mode, items, stage, timeout=2400):
                 stage, sig, mm.get("step"), json.dumps(mm.get("want"))[:400], json.dumps(mm.get("got"))[:400],
                 mm.get("note", "")), p)
     ok = cnt.get("ok", 0)
-    ctx.ev.add_impl("%s: behaviours reproduced by DBV2 (%s)" % (stage, mode), ok, steps=res.get("steps", 0),
-                    given=len(items), mismatching=nmm, left_spec_whitebox=cnt.get("left_spec", 0),
-                    distinct_op_sequences=res.get("distinct", 0))
+    exact = ok - cnt.get("left_spec", 0)
+    if mode in TRACE_PROPS:
+        acc = validate_traces(ctx, mode, res, items, stage)
+        ctx.ev.add_impl("%s: executions of DBV2 accepted by MetaDBTrace (%s properties in every step)" % (stage, mode),
+                        acc, steps=res.get("steps", 0), given=len(items), read_mismatches=nmm,
+                        also_exactly_as_mechanism_spec=exact, distinct_op_sequences=res.get("distinct", 0))
+    else:
+        ctx.ev.add_impl("%s: histories whose reopened databases equal the primary (%s)" % (stage, mode), ok,
+                        steps=res.get("steps", 0), given=len(items), mismatching=nmm,
+                        primary_exactly_as_mechanism_spec=exact, distinct_op_sequences=res.get("distinct", 0))
     if cnt.get("left_spec", 0):
-        ctx.log("%s: %d behaviours differ from the specification outside the verdict fields: %s" % (
+        ctx.log("%s: %d behaviours left the mechanism of the specification (not a verdict): %s" % (
             stage, cnt["left_spec"], res.get("notes", [])[:2]))
-        ctx.ev.set("whitebox_notes_" + stage, res.get("notes", [])[:5])
+        ctx.ev.set("mechanism_notes_" + stage, res.get("notes", [])[:5])
     for s in res.get("samples", [])[:3]:
         ctx.ev.sample(s)
     ctx.log("%s: %d/%d behaviours ok, %d mismatching, %d steps" % (stage, ok, len(items), nmm, res.get("steps", 0)))
